@@ -370,7 +370,7 @@ def tasks_for(tier, seed):
 
 
 def witness(task):
-    return (f"{':'.join(task['model'])}|{task['method']}|p{task['processes']}|n{task['n']}|t{task['thinning']}|s{task['seed']}"
+    return (f"{':'.join(map(str, task['model']))}|{task['method']}|p{task['processes']}|n{task['n']}|t{task['thinning']}|s{task['seed']}"
             f"|nproj{task['nproj']}")
 
 
